@@ -19,6 +19,40 @@ class MidSampler(CornerSampler):
     """A second user class (distinct name)."""
 
 
+from black_it.samplers.halton import HaltonSampler  # noqa: E402
+from black_it.samplers.random_uniform import RandomUniformSampler  # noqa: E402
+
+
+class WideHalton(HaltonSampler):
+    """A user class derived from a built-in one (used next to its parent: two classes, two ids)."""
+
+
+class OtherHalton(HaltonSampler):
+    """A sibling of WideHalton."""
+
+
+class NamedSampler(RandomUniformSampler):
+    """A user class that happens to carry an attribute called `name` (here: the name of ANOTHER registered class)."""
+
+    def __init__(self, *a, name="HaltonSampler", **k):
+        super().__init__(*a, **k)
+        self.name = name
+
+
+class ÉchantillonneurLocal(CornerSampler):  # noqa: PLC2401
+    """A class whose (valid) name is not ASCII."""
+
+
+from black_it.schedulers.round_robin import RoundRobinScheduler  # noqa: E402
+
+
+class GrowingRoundRobin(RoundRobinScheduler):
+    """A user scheduler whose line-up can be extended in place."""
+
+    def add_sampler(self, s_):
+        self._samplers = (*self._samplers, s_)
+
+
 from black_it.loss_functions.minkowski import MinkowskiLoss  # noqa: E402
 from vlib.models import InjectedFault, InjectedInterrupt  # noqa: E402
 
